@@ -83,6 +83,25 @@ fn asm_file(args: &[&str]) -> String {
     finish(r, output)
 }
 
+/// `asm_file_cwd <cwd hex> <path hex>`: chdir(cwd), then Ingest::ingest_file(path)
+/// (relative source paths and `Root::new`'s use of the current directory; C12/C18)
+fn asm_file_cwd(args: &[&str]) -> String {
+    let cwd = String::from_utf8(unhex(args[0])).unwrap();
+    if let Err(e) = std::env::set_current_dir(&cwd) {
+        return format!("err:harness-chdir({})", e.kind().to_string().replace(' ', "_"));
+    }
+    asm_file(&args[1..])
+}
+
+/// `asm_at_cwd <cwd hex> <path hex> <src hex>`: chdir(cwd), then Ingest::ingest(path, src)
+fn asm_at_cwd(args: &[&str]) -> String {
+    let cwd = String::from_utf8(unhex(args[0])).unwrap();
+    if let Err(e) = std::env::set_current_dir(&cwd) {
+        return format!("err:harness-chdir({})", e.kind().to_string().replace(' ', "_"));
+    }
+    asm_at(&args[1..])
+}
+
 /// `parse_debug <src hex>`: Debug rendering of the parsed nodes (verif-hooks)
 fn parse_debug(args: &[&str]) -> String {
     let src = String::from_utf8(unhex(args[0])).expect("harness: source not utf8");
@@ -97,6 +116,8 @@ pub fn dispatch(cmd: &str, args: &[&str]) -> Option<String> {
         "asm" => Some(asm(args)),
         "asm_at" => Some(asm_at(args)),
         "asm_file" => Some(asm_file(args)),
+        "asm_file_cwd" => Some(asm_file_cwd(args)),
+        "asm_at_cwd" => Some(asm_at_cwd(args)),
         "parse_debug" => Some(parse_debug(args)),
         _ => None,
     }
